@@ -20,11 +20,12 @@ func nwrites(spec treeSpec) int {
 	}
 	w := newWorld([]treeSpec{spec})
 	c := w.newClient("mutable", 2*time.Second, true)
+	pkgPath := entryDir + "/cache.zip"
 	_ = c.store(0)
 	c.done()
 	n := 0
 	for _, t := range c.trace {
-		if t.Name == "f.Write" && t.Path == entryDir+"/cache.zip" {
+		if t.Name == "f.Write" && t.Path == pkgPath {
 			n++
 		}
 	}
@@ -54,7 +55,8 @@ func emitSeqCase(r *h.Run, sc seqScenario, obs []opObs) {
 			if o.Label == "" {
 				return // the model does not distinguish the operation that was hit
 			}
-			k, ok := map[string]string{"err": "KErr", "short": "KShort", "crash": "KCrash", "crashshort": "KCrashShort"}[op.Fault.Kind]
+			// a short count without error is noticed by every writer involved (io.ErrShortWrite): same as a short write with error
+			k, ok := map[string]string{"err": "KErr", "short": "KShort", "shortnil": "KShort", "crash": "KCrash", "crashshort": "KCrashShort"}[op.Fault.Kind]
 			if !ok {
 				return
 			}
